@@ -24,6 +24,7 @@ from pathlib import Path
 import yaml
 
 from extract import REPO, emit, parse
+from consteval import ModuleEnv, NotConst, norm_struct
 
 MIX = "spsdk/image/mbi/mbi_mixin.py"
 MBI = "spsdk/image/mbi/mbi.py"
@@ -74,36 +75,127 @@ def class_assign(c, name):
     return None
 
 
-def fold(node, env):
-    """restricted constant folder for class-level integer constants (`A = B + 0x20`)."""
-    if isinstance(node, ast.Constant) and isinstance(node.value, (int, bytes, str)) and not isinstance(node.value, bool):
-        return node.value
-    if isinstance(node, ast.Name) and node.id in env:
-        return env[node.id]
-    if isinstance(node, ast.BinOp):
-        a, b = fold(node.left, env), fold(node.right, env)
-        if isinstance(a, int) and isinstance(b, int):
-            ops = {ast.Add: lambda: a + b, ast.Sub: lambda: a - b, ast.Mult: lambda: a * b, ast.LShift: lambda: a << b,
-                   ast.BitOr: lambda: a | b}
-            if type(node.op) in ops:
-                return ops[type(node.op)]()
-    raise ValueError("not foldable: " + ast.unparse(node))
+_MENVS = {}
 
 
-def int_consts(c):
-    env = {}
-    for st in c.body:
-        tgt = val = None
-        if isinstance(st, ast.Assign) and len(st.targets) == 1 and isinstance(st.targets[0], ast.Name):
-            tgt, val = st.targets[0].id, st.value
-        elif isinstance(st, ast.AnnAssign) and isinstance(st.target, ast.Name) and st.value is not None:
-            tgt, val = st.target.id, st.value
-        if tgt:
+def menv_of(rel):
+    """consteval environment of a source file (constants are read BY VALUE, never by spelling)"""
+    if rel not in _MENVS:
+        _MENVS[rel] = ModuleEnv(parse(rel))
+    return _MENVS[rel]
+
+
+def int_consts(rel, clsname):
+    """every class constant (own and inherited inside the module) that evaluates to an int / bytes / str: name -> value,
+    in definition order (own class first)"""
+    me = menv_of(rel)
+    if clsname not in me.classes:
+        return {}
+    ce = me.cls(clsname)
+    out, seen = {}, set()
+    stack = [ce]
+    while stack:
+        k = stack.pop(0)
+        for n in k.nodes:
+            if n in seen:
+                continue
+            seen.add(n)
             try:
-                env[tgt] = fold(val, env)
-            except ValueError:
+                v = ce.value(n)
+            except (NotConst, RecursionError):
+                continue
+            if isinstance(v, (int, bytes, str)) and not isinstance(v, bool):
+                out[n] = v
+        stack.extend(k.bases())
+    return out
+
+
+def cval(rel, cls, node, local=None):
+    """value of a constant expression at a use site inside class `cls` of file `rel` (raises NotConst)"""
+    return menv_of(rel).eval(node, cls=cls, local=local)
+
+
+def _self_attr_anywhere(me, attr):
+    """`self.X` inside a mixin may name a constant of ANOTHER mixin of the composed class: the value, if every class of the
+    module that defines X agrees on it"""
+    vals = []
+    for k in me.classes.values():
+        if attr in k.nodes:
+            try:
+                vals.append(k.value(attr))
+            except NotConst:
+                return None
+    if vals and all(v == vals[0] for v in vals):
+        return vals[0]
+    return None
+
+
+def const_leaves(rel, cls, node, local=None):
+    """values of the maximal INTEGER-valued constant sub-expressions of a function / expression, in source order: literals, named module /
+    class constants (`X`, `Cls.X`, `self.X`, `cls.X`), arithmetic of them, `struct.calcsize(FMT)` ... - whatever spelling"""
+    me = menv_of(rel)
+    out = []
+
+    def visit(n):
+        if isinstance(n, ast.Expr) and isinstance(n.value, ast.Constant):
+            return                                   # docstring
+        if isinstance(n, (ast.Raise, ast.Assert)):
+            return                                   # messages / assertions are not behaviour we read
+        if isinstance(n, ast.expr):
+            if isinstance(n, ast.JoinedStr):
+                return
+            try:
+                v = me.eval(n, cls=cls, local=local)
+                if isinstance(v, int) and not isinstance(v, bool):
+                    out.append((v, n))
+                    return
+                if not isinstance(n, (ast.Call, ast.BinOp, ast.Subscript, ast.List, ast.Tuple, ast.Dict, ast.Set, ast.IfExp, ast.BoolOp, ast.Compare)):
+                    return                           # a non-integer atom (string, bytes, None ...)
+            except (NotConst, RecursionError, TypeError, ValueError):
                 pass
-    return env
+            if isinstance(n, ast.Attribute) and isinstance(n.value, ast.Name) and n.value.id in ("self", "cls"):
+                v = _self_attr_anywhere(me, n.attr)
+                if v is not None:
+                    out.append((v, n))
+                return
+            if isinstance(n, ast.Call):
+                # the callee itself is not a value
+                for a in list(n.args) + [k.value for k in n.keywords]:
+                    visit(a)
+                if isinstance(n.func, ast.Attribute):
+                    visit(n.func.value)
+                return
+        for ch in ast.iter_child_nodes(n):
+            visit(ch)
+    visit(node)
+    return out
+
+
+def int_leaves(rel, cls, node, local=None, lo=None):
+    vs = [v for v, _ in const_leaves(rel, cls, node, local) if isinstance(v, int) and not isinstance(v, bool)]
+    return [v for v in vs if lo is None or v > lo]
+
+
+def len_guard(rel, cls, fn, ops=(ast.Lt, ast.NotEq)):
+    """N of the first `if len(x) <op> N [or ...]: raise ...` of a function, by value (the guard may be one disjunct of the test)"""
+    def disjuncts(t):
+        if isinstance(t, ast.BoolOp) and isinstance(t.op, ast.Or):
+            for v in t.values:
+                yield from disjuncts(v)
+        else:
+            yield t
+    for st in ast.walk(fn):
+        if isinstance(st, ast.If) and st.body and all(isinstance(b, ast.Raise) for b in st.body):
+            for t in disjuncts(st.test):
+                if isinstance(t, ast.Compare) and len(t.ops) == 1 and isinstance(t.ops[0], ops) and isinstance(t.left, ast.Call) \
+                        and ast.unparse(t.left.func) == "len":
+                    try:
+                        v = cval(rel, cls, t.comparators[0])
+                    except NotConst:
+                        continue
+                    if isinstance(v, int):
+                        return v
+    return None
 
 
 def method(c, name):
@@ -263,27 +355,146 @@ def mixin_facts():
         for c in ch:
             if needed is None and class_assign(cl[c], "NEEDED_MEMBERS") is not None:
                 v = class_assign(cl[c], "NEEDED_MEMBERS")
-                needed = [k.value for k in v.keys if isinstance(k, ast.Constant)] if isinstance(v, ast.Dict) else []
+                needed = []
+                for k in (v.keys if isinstance(v, ast.Dict) else []):
+                    try:
+                        kv = cval(MIX, c, k)
+                    except NotConst:
+                        continue
+                    if isinstance(kv, str):
+                        needed.append(kv)
             if pre is None and class_assign(cl[c], "PRE_PARSED") is not None:
-                pre = ast.literal_eval(class_assign(cl[c], "PRE_PARSED"))
+                pre = list(cval(MIX, c, class_assign(cl[c], "PRE_PARSED")))
             if legacy is None and class_assign(cl[c], "COUNT_IN_LEGACY_CERT_BLOCK_LEN") is not None:
-                legacy = ast.literal_eval(class_assign(cl[c], "COUNT_IN_LEGACY_CERT_BLOCK_LEN"))
+                legacy = bool(cval(MIX, c, class_assign(cl[c], "COUNT_IN_LEGACY_CERT_BLOCK_LEN")))
         if is_data:
             attrs |= set(needed or [])
         facts[n] = dict(is_data=is_data, parent=parent, provider=prov, attrs=sorted(a for a in attrs if a in ATTRS),
                         pre=[p for p in (pre or []) if p in ATTRS] if is_data else [], legacy=bool(legacy) if legacy is not None else True,
                         needed=sorted(needed or []) if is_data else [])
+    facts['__tz__'] = tz_loader_facts(cl, names, chain)
     return names, facts
+
+
+# ------------------------------------------------------------------ TrustZone keys of the configuration (mix_load_from_config)
+TZ_KEYS = ["enableTrustZone", "trustZonePresetFile"]
+
+
+class UntrTz(Exception):
+    pass
+
+
+def _cfg_get_key(node):
+    """`config.get(KEY[, falsy default])` -> key (KEY and the default are read by value), else None"""
+    def val(n):
+        try:
+            return cval(MIX, None, n)
+        except NotConst:
+            return NotConst
+    if isinstance(node, ast.Call) and isinstance(node.func, ast.Attribute) and node.func.attr == "get" \
+            and isinstance(node.func.value, ast.Name) and node.func.value.id == "config" and node.args:
+        k = val(node.args[0])
+        if not isinstance(k, str):
+            return None
+        dflts = list(node.args[1:]) + [kw.value for kw in node.keywords]
+        for dn in dflts:
+            dv = val(dn)
+            if dv is NotConst or dv:
+                raise UntrTz("default of config.get is not a falsy constant: " + ast.unparse(node))
+        return k
+    return None      # `config[KEY]` raises for an absent key: not the same as a falsy default, refused by the callers
+
+
+def tr_tz_loader(fn):
+    """Decision structure of a `mix_load_from_config` that sets `self.trust_zone`, as a Lean term over the truthiness of the
+    configuration keys TZ_KEYS: TzChoice.disabled / .enabled / .preset.  Anything else is refused."""
+    def cond(node, env):
+        if isinstance(node, ast.Name) and node.id in env:
+            return env[node.id]
+        k = _cfg_get_key(node)
+        if k is not None:
+            if k not in TZ_KEYS:
+                raise UntrTz("unknown configuration key " + k)
+            return k
+        if isinstance(node, ast.UnaryOp) and isinstance(node.op, ast.Not):
+            return f"(!{cond(node.operand, env)})"
+        if isinstance(node, ast.BoolOp):
+            op = " && " if isinstance(node.op, ast.And) else " || "
+            return "(" + op.join(cond(v, env) for v in node.values) + ")"
+        raise UntrTz("unsupported condition: " + ast.unparse(node)[:60])
+
+    def block(sts, env):
+        env = dict(env)
+        sts = [st for st in sts if not (isinstance(st, ast.Expr) and isinstance(st.value, ast.Constant))]
+        for i, st in enumerate(sts):
+            last = i == len(sts) - 1
+            if isinstance(st, ast.Assign) and len(st.targets) == 1 and isinstance(st.targets[0], ast.Name):
+                k = _cfg_get_key(st.value)
+                if k is None or k not in TZ_KEYS:
+                    raise UntrTz("unsupported assignment: " + ast.unparse(st)[:60])
+                env[st.targets[0].id] = k
+                continue
+            if not last:
+                raise UntrTz("statement after the TrustZone decision: " + ast.unparse(sts[i + 1])[:60])
+            if isinstance(st, ast.If):
+                if not st.orelse:
+                    raise UntrTz("`if` without else leaves the TrustZone undecided")
+                return f"(if {cond(st.test, env)} then {block(st.body, env)} else {block(st.orelse, env)})"
+            if isinstance(st, ast.Expr) and isinstance(st.value, ast.Call) and ast.unparse(st.value.func) == "self._load_preset_file" \
+                    and len(st.value.args) == 1 and cond(st.value.args[0], env) == "trustZonePresetFile":
+                return "TzChoice.preset"
+            if isinstance(st, ast.Assign) and ast.unparse(st.targets[0]) == "self.trust_zone":
+                v = ast.unparse(st.value)
+                if v == "TrustZone.enabled()":
+                    return "TzChoice.enabled"
+                if v == "TrustZone.disabled()":
+                    return "TzChoice.disabled"
+            raise UntrTz("unsupported statement: " + ast.unparse(st)[:60])
+        raise UntrTz("block decides nothing")
+    return block(fn.body, {})
+
+
+def tz_loader_facts(cl, names, chain):
+    """(definers: class -> Lean term or error text, loader: mixin -> defining class or None).  The loader of a mixin is the first
+    class of its ancestry that defines mix_load_from_config, looking further up while the body calls super()'s."""
+    definers = {}
+    for n in cl:
+        fn = method(cl[n], "mix_load_from_config")
+        if fn is None:
+            continue
+        sets = any((isinstance(x, ast.Assign) and any(ast.unparse(t) == "self.trust_zone" for t in x.targets))
+                   or (isinstance(x, ast.Call) and ast.unparse(x.func) == "self._load_preset_file") for x in ast.walk(fn))
+        if sets:
+            try:
+                definers[n] = ("ok", tr_tz_loader(fn), fn.lineno)
+            except UntrTz as exc:
+                definers[n] = ("untranslatable", str(exc), fn.lineno)
+    loader = {}
+    for n in names:
+        res = None
+        for c in chain(n)[:-1]:
+            fn = method(cl[c], "mix_load_from_config")
+            if fn is None:
+                continue
+            if c in definers:
+                res = c
+                break
+            if "super().mix_load_from_config(" in ast.unparse(fn):
+                continue
+            break
+        loader[n] = res
+    return definers, loader
 
 
 def gen_MbiClasses():
     names, facts = mixin_facts()
+    tz_definers, tz_loader = facts.pop('__tz__')
     mbi_tree = parse(MBI)
     image_types = {}
     for st in mbi_tree.body:
         if isinstance(st, ast.Assign) and isinstance(st.targets[0], ast.Name) and st.targets[0].id.endswith("_IMAGE") \
                 and isinstance(st.value, ast.Tuple):
-            image_types[st.targets[0].id] = ast.literal_eval(st.value.elts[0])
+            image_types[st.targets[0].id] = cval(MBI, None, st.value.elts[0])
     devs = load_devices()
     shapes, rows, problems = [], [], []
     for name in sorted(devs):
@@ -372,8 +583,32 @@ def gen_MbiClasses():
         for p in problems:
             o.append(f"-- {p}")
         o.append("def extractionProblems : Nat := " + str(len(problems)) + "\nexample : extractionProblems = 0 := by decide\n")
+    o.append("/-! ### the TrustZone keys of the configuration (`mix_load_from_config`) -/")
+    o.append("/-- what a `mix_load_from_config` makes of `enableTrustZone` / `trustZonePresetFile`: TrustZone.disabled(), TrustZone.enabled(),\n"
+             "    or the preset file is loaded -/")
+    o.append("inductive TzChoice where\n  | disabled | enabled | preset\n  deriving DecidableEq, Repr\n")
+    o.append("open MixinName in\n/-- the class of the ancestry whose `mix_load_from_config` decides the TrustZone of the image (following `super()` calls);\n"
+             "    none: the mixin does not read the TrustZone keys -/\ndef tzConfigLoader : MixinName → Option MixinName")
+    for n in names:
+        if tz_loader[n]:
+            o.append(f"  | {n} => some {tz_loader[n]}")
+    o.append("  | _ => none\n")
+    tz_meta = {}
+    o.append("open MixinName in\n/-- the decision of the loaders, translated from the AST; arguments: truthiness of `config.get(\"enableTrustZone\")` and of\n"
+             "    `config.get(\"trustZonePresetFile\")` (absent, false and the empty string are falsy) -/\n"
+             "def tzLoad : MixinName → Bool → Bool → Option TzChoice")
+    for n in names:
+        if n in tz_definers:
+            kind, txt, line = tz_definers[n]
+            tz_meta[n] = kind if kind == "ok" else f"untranslatable: {txt}"
+            if kind == "ok":
+                o.append(f"  -- `{n}.mix_load_from_config`")
+                o.append(f"  | {n}, enableTrustZone, trustZonePresetFile => some {txt}")
+            else:
+                o.append(f"  -- untranslatable: {n}.mix_load_from_config: {txt}")
+    o.append("  | _, _, _ => none\n")
     o.append("end SpsdkVerif.Generated.MbiClasses")
-    meta = {"mixins": names, "facts": facts, "image_types": image_types, "problems": problems,
+    meta = {"tz_loaders": tz_meta, "tz_loader_of": tz_loader, "mixins": names, "facts": facts, "image_types": image_types, "problems": problems,
             "shapes": [[it, list(mix)] for it, mix in shapes], "rows": [list(r) for r in rows]}
     emit("MbiClasses", "\n".join(o) + "\n", meta)
 
@@ -430,14 +665,16 @@ def tr_expr(node, consts, want, flags_name=None):
         if want == "Nat":
             return "flags"
         return "(flags != 0)"
-    if isinstance(node, ast.Constant) and isinstance(node.value, int) and not isinstance(node.value, bool):
+    # any constant sub-expression (literal, class constant, `1 << 10`, `MASK << SHIFT` ...) is emitted BY VALUE, so that the
+    # generated text does not depend on how the source spells it
+    try:
+        v = cval(MIX, "Mbi_MixinIvt", node)
+    except (NotConst, RecursionError):
+        v = None
+    if isinstance(v, int) and not isinstance(v, bool) and v >= 0:
         if want == "Nat":
-            return str(node.value)
+            return str(v)
         raise Untr("int constant in boolean position")
-    if isinstance(node, ast.Attribute) and isinstance(node.value, ast.Name) and node.value.id in ("self", "cls") and node.attr in consts:
-        if want == "Nat":
-            return CONST_NAMES.get(node.attr, None) or str(consts[node.attr])
-        raise Untr("class constant in boolean position")
     if isinstance(node, ast.BinOp) and type(node.op) in (ast.LShift, ast.RShift, ast.BitAnd, ast.BitOr):
         op = {ast.LShift: "<<<", ast.RShift: ">>>", ast.BitAnd: "&&&", ast.BitOr: "|||"}[type(node.op)]
         e = f"({tr_expr(node.left, consts, 'Nat', flags_name)} {op} {tr_expr(node.right, consts, 'Nat', flags_name)})"
@@ -553,7 +790,7 @@ def gen_IvtConsts():
     mt = parse(MIX)
     cl = classes(mt)
     ivt = cl["Mbi_MixinIvt"]
-    consts = int_consts(ivt)
+    consts = int_consts(MIX, "Mbi_MixinIvt")
     o = ["namespace SpsdkVerif.Generated.IvtConsts", ""]
     meta = {"consts": {}, "translated": {}}
 
@@ -579,7 +816,7 @@ def gen_IvtConsts():
             if fn is None:
                 raise Untr("method not found")
             txt = tr_getter(fn, consts, ln, ret)
-            o.append(f"/-- translated from `Mbi_MixinIvt.{py}` (line {fn.lineno}) -/")
+            o.append(f"/-- translated from `Mbi_MixinIvt.{py}` -/")
             o.append(txt)
             meta["translated"][ln] = "translated"
         except Untr as exc:
@@ -590,7 +827,7 @@ def gen_IvtConsts():
         if fn is None:
             raise Untr("method not found")
         txt = tr_create_flags(fn, consts)
-        o.append(f"/-- translated from `Mbi_MixinIvt.create_flags` (line {fn.lineno}); the parameters are the attribute reads of the body -/")
+        o.append("/-- translated from `Mbi_MixinIvt.create_flags`; the parameters are the attribute reads of the body -/")
         o.append(txt)
         meta["translated"]["createFlags"] = "translated"
     except Untr as exc:
@@ -601,88 +838,105 @@ def gen_IvtConsts():
     for st in parse(MBI).body:
         if isinstance(st, ast.Assign) and isinstance(st.targets[0], ast.Name) and st.targets[0].id.endswith("_IMAGE") and isinstance(st.value, ast.Tuple):
             nm = "".join(w.capitalize() for w in st.targets[0].id.lower().split("_"))
-            d("type" + nm, ast.literal_eval(st.value.elts[0]), f"`{st.targets[0].id}`")
+            d("type" + nm, cval(MBI, None, st.value.elts[0]), f"`{st.targets[0].id}`")
     tzc = classes(parse(TZ)).get("TrustZoneType")
     for st in (tzc.body if tzc else []):
         if isinstance(st, ast.Assign) and isinstance(st.value, ast.Tuple):
-            d("tz" + st.targets[0].id.capitalize(), ast.literal_eval(st.value.elts[0]), f"`TrustZoneType.{st.targets[0].id}`")
+            d("tz" + st.targets[0].id.capitalize(), cval(TZ, "TrustZoneType", st.value.elts[0]), f"`TrustZoneType.{st.targets[0].id}`")
 
     o.append("\n/-! ### HMAC, key store, counter IV, encrypted image layout -/")
-    hm = int_consts(cl["Mbi_MixinHmac"])
+    hm = int_consts(MIX, "Mbi_MixinHmac")
     d("hmacOffset", hm.get("HMAC_OFFSET", 0), "`Mbi_MixinHmac.HMAC_OFFSET`")
     d("hmacSize", hm.get("HMAC_SIZE", 0), "`Mbi_MixinHmac.HMAC_SIZE`")
     d("hmacKeyLength", hm.get("_HMAC_KEY_LENGTH", 0), "`Mbi_MixinHmac._HMAC_KEY_LENGTH`")
-    d("ctrInitVectorSize", int_consts(cl["Mbi_MixinCtrInitVector"]).get("_CTR_INIT_VECTOR_SIZE", 0), "`Mbi_MixinCtrInitVector._CTR_INIT_VECTOR_SIZE`")
+    d("ctrInitVectorSize", int_consts(MIX, "Mbi_MixinCtrInitVector").get("_CTR_INIT_VECTOR_SIZE", 0), "`Mbi_MixinCtrInitVector._CTR_INIT_VECTOR_SIZE`")
     ksc = classes(parse(KS))["KeyStore"]
-    d("keyStoreSize", int_consts(ksc).get("KEY_STORE_SIZE", 0), "`KeyStore.KEY_STORE_SIZE`")
+    d("keyStoreSize", int_consts(KS, "KeyStore").get("KEY_STORE_SIZE", 0), "`KeyStore.KEY_STORE_SIZE`")
     # img_len: total_len + signature_size + <encrypted IVT copy> + <IV>
     enc = cl["Mbi_ExportMixinAppTrustZoneCertBlockEncrypt"]
-    lits = [n.value for n in sorted((n for n in ast.walk(method(enc, "img_len")) if isinstance(n, ast.Constant) and _is_int(n.value)),
-                                    key=lambda n: (n.lineno, n.col_offset))]
-    d("encIvtCopySize", lits[0] if len(lits) == 2 else 0, "first literal of `img_len` (size of the copy of the encrypted IVT)")
-    d("encIvSize", lits[1] if len(lits) == 2 else 0, "second literal of `img_len` (counter IV)")
-    pe = sorted({n.value for n in ast.walk(method(enc, "post_encrypt")) if isinstance(n, ast.Constant) and _is_int(n.value)})
-    o.append(f"/-- integer literals of `post_encrypt` -/\ndef postEncryptLiterals : List Nat := {pe}")
-    mp = sorted({n.value for n in ast.walk(method(cl["Mbi_MixinCtrInitVector"], "mix_parse")) if isinstance(n, ast.Constant) and _is_int(n.value)})
-    o.append(f"/-- integer literals of `Mbi_MixinCtrInitVector.mix_parse` -/\ndef ctrIvParseLiterals : List Nat := {mp}")
-    # minimal application size
-    lits = sorted({n.value for n in ast.walk(method(cl["Mbi_MixinApp"], "mix_validate")) if isinstance(n, ast.Constant) and isinstance(n.value, int) and n.value > 12})
-    d("minAppSize", lits[0] if len(lits) == 1 else 0, "`Mbi_MixinApp.mix_validate`: minimal application size")
-    lits = sorted({n.value for n in ast.walk(method(ivt, "check_total_length")) if isinstance(n, ast.Constant) and isinstance(n.value, int) and n.value > 4})
-    d("minIvtSize", lits[0] if len(lits) == 1 else 0, "`Mbi_MixinIvt.check_total_length`: minimal size of data with an IVT")
+    ENC = "Mbi_ExportMixinAppTrustZoneCertBlockEncrypt"
+    ksns = type("KeyStoreConsts", (), dict(int_consts(KS, "KeyStore")))      # `KeyStore.X` used inside mbi_mixin.py
+    loc = {"KeyStore": ksns}
+    # img_len: total_len + signature_size + <encrypted IVT copy> + <IV>: the constant addends of the returned sum, by value
+    ret = [st for st in ast.walk(method(enc, "img_len")) if isinstance(st, ast.Return)]
+    lits = int_leaves(MIX, ENC, ret[-1].value, loc) if ret else []
+    d("encIvtCopySize", lits[0] if len(lits) == 2 else 0, "first constant addend of `img_len` (size of the copy of the encrypted IVT)")
+    d("encIvSize", lits[1] if len(lits) == 2 else 0, "second constant addend of `img_len` (counter IV)")
+    pe = sorted(set(int_leaves(MIX, ENC, method(enc, "post_encrypt"), loc)))
+    o.append(f"/-- values of the constant expressions of `post_encrypt` (literals and named constants alike) -/\ndef postEncryptLiterals : List Nat := {pe}")
+    mp = sorted(set(int_leaves(MIX, "Mbi_MixinCtrInitVector", method(cl["Mbi_MixinCtrInitVector"], "mix_parse"), loc)))
+    o.append(f"/-- values of the constant expressions of `Mbi_MixinCtrInitVector.mix_parse` (literals and named constants alike) -/\ndef ctrIvParseLiterals : List Nat := {mp}")
+    # minimal application size / minimal size of data with an IVT: `if len(x) < N: raise`
+    d("minAppSize", len_guard(MIX, "Mbi_MixinApp", method(cl["Mbi_MixinApp"], "mix_validate"), (ast.Lt,)) or 0,
+      "`Mbi_MixinApp.mix_validate`: minimal application size")
+    d("minIvtSize", len_guard(MIX, "Mbi_MixinIvt", method(ivt, "check_total_length"), (ast.Lt,)) or 0,
+      "`Mbi_MixinIvt.check_total_length`: minimal size of data with an IVT")
     try:
-        k0 = safe_bytes(find_calls(method(ksc, "derive_hmac_key"), "aes_ecb_encrypt")[0].args[1])
-        k1 = safe_bytes(find_calls(method(ksc, "derive_enc_image_key"), "aes_ecb_encrypt")[0].args[1])
-    except (ValueError, IndexError):
+        k0 = cval(KS, "KeyStore", find_calls(method(ksc, "derive_hmac_key"), "aes_ecb_encrypt")[0].args[1])
+        k1 = cval(KS, "KeyStore", find_calls(method(ksc, "derive_enc_image_key"), "aes_ecb_encrypt")[0].args[1])
+        if not (isinstance(k0, bytes) and isinstance(k1, bytes)):
+            raise NotConst("not bytes")
+    except (NotConst, IndexError):
         k0 = k1 = b""
     o.append(f"/-- plaintext of `KeyStore.derive_hmac_key` -/\ndef deriveHmacKeyConst : List UInt8 := {lean_bytes(k0)}")
     o.append(f"/-- plaintext of `KeyStore.derive_enc_image_key` -/\ndef deriveEncImageKeyConst : List UInt8 := {lean_bytes(k1)}")
-    lits = sorted({n.value for n in ast.walk(method(ksc, "derive_hmac_key")) if isinstance(n, ast.Constant) and isinstance(n.value, int) and n.value > 16})
-    d("userKeyLength", lits[0] if len(lits) == 1 else 0, "key length accepted by `KeyStore.derive_hmac_key`")
+    d("userKeyLength", len_guard(KS, "KeyStore", method(ksc, "derive_hmac_key"), (ast.NotEq,)) or 0, "key length accepted by `KeyStore.derive_hmac_key`")
 
     o.append("\n/-! ### relocation table (mbi_classes.py) -/")
     ct = parse(CLS)
     cc = classes(ct)
-    mk = sorted({n.value for n in ast.walk(method(cc["MultipleImageTable"], "reloc_table")) if isinstance(n, ast.Constant) and isinstance(n.value, int) and n.value > 0xFFFF})
-    mk2 = sorted({n.value for n in ast.walk(method(cc["MultipleImageTable"], "parse")) if isinstance(n, ast.Constant) and isinstance(n.value, int) and n.value > 0xFFFF})
+    mk = sorted(set(int_leaves(CLS, "MultipleImageTable", method(cc["MultipleImageTable"], "reloc_table"), lo=0xFFFF)))
+    mk2 = sorted(set(int_leaves(CLS, "MultipleImageTable", method(cc["MultipleImageTable"], "parse"), lo=0xFFFF)))
     d("relocMarkerExport", mk[0] if len(mk) == 1 else 0, "marker written by `MultipleImageTable.reloc_table`")
     d("relocMarkerParse", mk2[0] if len(mk2) == 1 else 0, "marker expected by `MultipleImageTable.parse`")
     hv = method(cc["MultipleImageTable"], "header_version")
-    d("relocHeaderVersion", ast.literal_eval(hv.body[-1].value) if hv and isinstance(hv.body[-1], ast.Return) else 99, "`header_version`")
-    d("ltiLoad", fold(class_assign(cc["MultipleImageEntry"], "LTI_LOAD"), {}), "`MultipleImageEntry.LTI_LOAD`")
+    try:
+        hvv = cval(CLS, "MultipleImageTable", hv.body[-1].value) if hv and isinstance(hv.body[-1], ast.Return) else 99
+    except NotConst:
+        hvv = 99
+    d("relocHeaderVersion", hvv, "`header_version`")
+    d("ltiLoad", int_consts(CLS, "MultipleImageEntry").get("LTI_LOAD", 99), "`MultipleImageEntry.LTI_LOAD`")
     al = [n for n in find_calls(method(cc["MultipleImageEntry"], "export_image"), "align_block")]
-    d("relocImageAlign", ast.literal_eval(al[0].args[1]) if al and len(al[0].args) > 1 else 0, "alignment of relocated images")
+    try:
+        alv = cval(CLS, "MultipleImageEntry", al[0].args[1]) if al and len(al[0].args) > 1 else 0
+    except NotConst:
+        alv = 0
+    d("relocImageAlign", alv, "alignment of relocated images")
 
     o.append("\n/-! ### manifest (mbi_classes.py) -/")
     man = cc["MasterBootImageManifest"]
-    mc = int_consts(man)
+    mc = int_consts(CLS, "MasterBootImageManifest")
     o.append(f"def manifestMagic : List UInt8 := {lean_bytes(mc.get('MAGIC', b''))}")
     fmt = mc.get("FORMAT", "")
-    d("manifestHeaderSize", struct.calcsize(fmt) if fmt else 0, f"calcsize({fmt!r})")
+    fmt = norm_struct(fmt) if fmt else ""
+    d("manifestHeaderSize", struct.calcsize(fmt) if fmt else 0, f"calcsize({fmt!r}) (format normalised: one code per field)")
     o.append(f"def manifestFormat : String := {lean_str(fmt)}")
     d("manifestFormatVersion", mc.get("FORMAT_VERSION", 0))
-    md = int_consts(cc["MasterBootImageManifestDigest"])
+    md = int_consts(CLS, "MasterBootImageManifestDigest")
     d("manifestDigestPresentFlag", md.get("DIGEST_PRESENT_FLAG", 0))
     d("manifestHashTypeMask", md.get("HASH_TYPE_MASK", 0))
 
     o.append("\n/-! ### certificate block v1 header, RKHT (cert_blocks.py, rkht.py) -/")
-    ch = int_consts(classes(parse(CB))["CertBlockHeader"])
+    ch = int_consts(CB, "CertBlockHeader")
     fmt = ch.get("FORMAT", "")
-    d("certHeaderSize", struct.calcsize(fmt) if fmt else 0, f"calcsize({fmt!r})")
+    fmt = norm_struct(fmt) if fmt else ""
+    d("certHeaderSize", struct.calcsize(fmt) if fmt else 0, f"calcsize({fmt!r}) (format normalised: one code per field)")
     o.append(f"def certHeaderFormat : String := {lean_str(fmt)}")
     o.append(f"def certHeaderSignature : List UInt8 := {lean_bytes(ch.get('SIGNATURE', b''))}")
-    rk = int_consts(classes(parse(RK))["RKHTv1"])
+    rk = int_consts(RK, "RKHTv1")
     d("rkhtEntries", rk.get("RKHT_SIZE", 0))
     d("rkhSize", rk.get("RKH_SIZE", 0))
-    c21 = int_consts(classes(parse(CB))["CertBlockV21"])
+    c21 = int_consts(CB, "CertBlockV21")
     o.append(f"def certV21Magic : List UInt8 := {lean_bytes(c21.get('MAGIC', b''))}")
 
     o.append("\n/-! ### BCA / FCF (mcxc) and the mc56 (Vx) layout -/")
-    d("bcaOffset", int_consts(cl["Mbi_MixinBca"]).get("BCA_OFFSET", 0))
-    d("fcfOffset", int_consts(cl["Mbi_MixinFcf"]).get("FCF_OFFSET", 0))
-    d("bcaSize", int_consts(classes(parse(BCA))["BCA"]).get("SIZE", 0))
-    d("fcfSize", int_consts(classes(parse(FCF))["FCF"]).get("SIZE", 0))
-    for k, v in int_consts(cl["Mbi_MixinBcaTable"]).items():
+    d("bcaOffset", int_consts(MIX, "Mbi_MixinBca").get("BCA_OFFSET", 0))
+    d("fcfOffset", int_consts(MIX, "Mbi_MixinFcf").get("FCF_OFFSET", 0))
+    d("bcaSize", int_consts(BCA, "BCA").get("SIZE", 0))
+    d("fcfSize", int_consts(FCF, "FCF").get("SIZE", 0))
+    for k, v in int_consts(MIX, "Mbi_MixinBcaTable").items():
+        if not _is_int(v) or k not in menv_of(MIX).cls("Mbi_MixinBcaTable").nodes:
+            continue
         d("vx" + "".join(w.capitalize() for w in k.lower().split("_")), v, f"`Mbi_MixinBcaTable.{k}`")
 
     o.append("\n/-! ### CRC-32/MPEG-2 (crc.py) -/")
@@ -691,7 +945,7 @@ def gen_IvtConsts():
         if isinstance(n, ast.Dict):
             for k, v in zip(n.keys, n.values):
                 if k is not None and ast.unparse(k) == "CrcAlg.CRC32_MPEG" and isinstance(v, ast.Call):
-                    crc = {kw.arg: ast.literal_eval(kw.value) for kw in v.keywords}
+                    crc = {kw.arg: cval(CRC, None, kw.value) for kw in v.keywords}
     crc = crc or {}
     d("crcPolynomial", crc.get("polynomial", 0))
     d("crcInitialValue", crc.get("initial_value", 0))
